@@ -8,6 +8,7 @@ import (
 	"os"
 	"os/exec"
 	"path/filepath"
+	"regexp"
 	"sort"
 	"strconv"
 	"strings"
@@ -304,24 +305,32 @@ func shortFunc(f string) string {
 	return f
 }
 
-// FirstRepoFrame returns the function of the first frame inside the goa
-// checkout of the first goroutine of a fatal-error or SIGQUIT dump, and the
-// dsl function highest on that stack.
+var closureRe = regexp.MustCompile(`(\.func\d+)+(\.\d+)*$`)
+
+// FirstRepoFrame reads a fatal-error or SIGQUIT dump: it returns a stable name
+// for the goa code that was running in the first goroutine that has a goa
+// frame (closure suffixes stripped; the alphabetically first function among
+// the 12 innermost goa frames, so that every entry point of a recursion cycle
+// gives the same name), and the dsl function highest on that stack.
 func FirstRepoFrame(dump, repo string) (fn, dslFn string) {
-	// only the first goroutine block that has a goa frame
 	prefix := strings.TrimSuffix(repo, "/") + "/"
 	blocks := strings.Split(dump, "\n\n")
 	for _, b := range blocks {
 		if !strings.Contains(b, prefix) {
 			continue
 		}
+		n := 0
 		for _, f := range frames(b) {
 			if !strings.HasPrefix(f.File, prefix) {
 				continue
 			}
-			if fn == "" {
-				fn = shortFunc(f.Func)
+			if n < 12 {
+				name := closureRe.ReplaceAllString(shortFunc(f.Func), "")
+				if fn == "" || name < fn {
+					fn = name
+				}
 			}
+			n++
 			if dslFn == "" && strings.HasPrefix(f.Func, "goa.design/goa/v3/dsl.") {
 				name := strings.TrimPrefix(f.Func, "goa.design/goa/v3/dsl.")
 				if i := strings.IndexAny(name, ".("); i > 0 {
